@@ -40,7 +40,7 @@ type FuncContract struct {
 	Ensures  []*Clause
 	Invs     []*Clause
 	Sites    []*Clause // callsite assertions: LoopKey holds the callee key
-	Modifies []string // names; "nothing" => empty with ModifiesSet=true
+	Modifies []string  // names; "nothing" => empty with ModifiesSet=true
 	ModSet   bool
 	Pure     bool // result is a function of the arguments (and pointees); no effects
 	Assumed  bool // trusted: the body is not verified
@@ -521,10 +521,11 @@ func findTop(s, op string) int {
 }
 
 // rewriteContract turns the contract surface syntax into plain Go expression syntax:
-//   a ==> b            ->  implies__(a, b)
-//   a <==> b           ->  iff__(a, b)
-//   forall x T :: P    ->  forall__(func(x T) bool { return P })
-//   exists x T :: P    ->  exists__(func(x T) bool { return P })
+//
+//	a ==> b            ->  implies__(a, b)
+//	a <==> b           ->  iff__(a, b)
+//	forall x T :: P    ->  forall__(func(x T) bool { return P })
+//	exists x T :: P    ->  exists__(func(x T) bool { return P })
 func rewriteContract(s string) string {
 	s = strings.TrimSpace(s)
 	if s == "" {
